@@ -11,6 +11,7 @@ import (
 	"path/filepath"
 	"reflect"
 	"regexp"
+	"sort"
 	"strconv"
 	"strings"
 
@@ -2730,5 +2731,354 @@ func ruleC19_2format(c *Ctx, r *Rep) {
 	}
 	if n == 0 {
 		r.Undecided("C19.2", "C19.2:publish-time-carries-its-zone", fn.Pos(), "the rendering of the publish time was not found")
+	}
+}
+
+// ---------------------------------------------------------------------------
+// Rules added from the seventh round (small mutations).
+
+// C15.2 (option): the schema is created WITH its foreign keys: no call of schema.WithForeignKeys(false). Without them
+// SQLite tables have no ON DELETE SET NULL for not_before_id: pruning a completed predecessor leaves a dangling link
+// and the ordered successor is never delivered.
+func ruleC15_2fkOption(c *Ctx, r *Rep) {
+	n := 0
+	for _, f := range c.Funcs {
+		if c.testSupport(f) || c.EntShape().isGenerated(f) {
+			continue
+		}
+		for _, ci := range callsIn(f, true, func(cal *ssa.Function, _ ssa.CallInstruction) bool {
+			return cal.Name() == "WithForeignKeys" && strings.Contains(fnPkgPath(cal), "entgo.io/ent/dialect/sql/schema")
+		}) {
+			n++
+			k, isK := ci.Common().Args[0].(*ssa.Const)
+			r.Check("C15.2", fmt.Sprintf("C15.2:schema-created-with-foreign-keys#%d@%s", n, c.Key(top(f))), ci.Pos(), isK && k.Value != nil && k.Value.String() == "true", "", "the schema is created with foreign keys switched off: the referential actions the rules read from the schema (NO ACTION, SET NULL for not_before_id) do not exist in the database")
+		}
+	}
+	r.OK("C15.2", "C15.2:schema-option-sites", token.NoPos, fmt.Sprintf("%d WithForeignKeys call sites", n))
+}
+
+// C01.6 (shared): completed_at is always set to the current time — time.Now() read in the operation, or the `now`
+// handed to a step of it — never to a value from the request (a seek target in the future makes the prune job skip
+// the rows for ever; one in the past reclaims them before the age threshold).
+func ruleC01_6(c *Ctx, r *Rep) {
+	keys := c.stmtKeys()
+	n := 0
+	for _, s := range c.EntShape().Stmts {
+		if s.Table != "deliveries" || s.Kind != "update" || c.testSupport(s.Fn) {
+			continue
+		}
+		for _, m := range s.Mut("completed_at", "set") {
+			if m.Arg == nil {
+				continue
+			}
+			n++
+			src := sources(m.Arg)
+			isNowParam := false
+			if p, isP := resolve(m.Arg).(*ssa.Parameter); isP && p.Name() == "now" {
+				isNowParam = true
+			}
+			fromReq := false
+			for k := range src {
+				if strings.HasPrefix(k, "path:") && strings.Contains(k, "params.") {
+					fromReq = true
+				}
+			}
+			r.Check("C01.6", "C01.6:completed-at-is-now:"+keys[s], m.Pos, (src["call:Now"] || isNowParam) && !fromReq, "", "completed_at is set to a value that is not the current time (a request parameter such as the seek target): the age-based prune job never reclaims the row (future value) or reclaims it at once (past value)")
+		}
+	}
+	r.Floor("C01.6", n, 3)
+}
+
+// C16.7: a constant index into a slice in the request path of package services is under a length test that implies
+// it (`len(segments) == 4 && segments[3] != ""`): the name validators index the split request name.
+func ruleC16_7(c *Ctx, r *Rep) {
+	n := 0
+	for _, f := range c.Funcs {
+		if c.PkgOf(f) != "services" || c.testSupport(f) || c.EntShape().isGenerated(f) {
+			continue
+		}
+		for _, b := range f.Blocks {
+			for _, in := range b.Instrs {
+				ia, ok := in.(*ssa.IndexAddr)
+				if !ok {
+					continue
+				}
+				if _, isSl := ia.X.Type().Underlying().(*types.Slice); !isSl {
+					continue
+				}
+				k, isK := constInt(ia.Index)
+				if !isK {
+					continue
+				}
+				// only slices whose length the function does not fix itself (results of calls, parameters, fields)
+				switch resolve(ia.X).(type) {
+				case *ssa.MakeSlice, *ssa.Slice, *ssa.Alloc:
+					continue
+				}
+				n++
+				xk := valKey(ia.X)
+				ok2 := false
+				for _, cd := range edgeConds(b) {
+					nc := normCond(cd.V, cd.Pol)
+					bo, isB := nc.V.(*ssa.BinOp)
+					if !isB {
+						continue
+					}
+					call, isC := bo.X.(*ssa.Call)
+					if !isC {
+						continue
+					}
+					bi, isBi := call.Call.Value.(*ssa.Builtin)
+					if !isBi || bi.Name() != "len" || valKey(call.Call.Args[0]) != xk {
+						continue
+					}
+					lim, isL := constInt(bo.Y)
+					if !isL {
+						continue
+					}
+					switch {
+					case bo.Op == token.EQL && nc.Pol && lim > k,
+						bo.Op == token.GEQ && nc.Pol && lim > k,
+						bo.Op == token.GTR && nc.Pol && lim >= k,
+						bo.Op == token.NEQ && !nc.Pol && lim > k,
+						bo.Op == token.LSS && !nc.Pol && lim > k,
+						bo.Op == token.LEQ && !nc.Pol && lim >= k:
+						ok2 = true
+					}
+				}
+				r.Check("C16.7", fmt.Sprintf("C16.7:const-index-under-length-test#%d@%s", n, c.Key(top(f))), ia.Pos(), ok2, "", fmt.Sprintf("element [%d] of a slice built from request data is read without a dominating test that the slice is long enough: a short input (a resource name with fewer segments) panics with index out of range", k))
+			}
+		}
+	}
+	r.Floor("C16.7", n, 6)
+}
+
+// C16.8: what a deferred function of the pull dereferences is bound on every exit: the subscription id pointer is
+// filled in only by a successful lookup, so its dereference in deferred clean-up sits under a nil test.
+func ruleC16_8(c *Ctx, r *Rep) {
+	fn := r.Anchor("C16.8", fnPullExec)
+	if fn == nil {
+		return
+	}
+	n := 0
+	for _, b := range fn.Blocks {
+		for _, in := range b.Instrs {
+			df, ok := in.(*ssa.Defer)
+			if !ok {
+				continue
+			}
+			g := funcOf(df.Call.Value)
+			if g == nil || g.Parent() != fn {
+				continue
+			}
+			for _, gb := range g.Blocks {
+				for _, gi := range gb.Instrs {
+					u, isU := gi.(*ssa.UnOp)
+					if !isU || u.Op != token.MUL {
+						continue
+					}
+					// *(*p) where p = &a.params.ID (a pointer-typed field)
+					inner, isIn := u.X.(*ssa.UnOp)
+					if !isIn || inner.Op != token.MUL {
+						continue
+					}
+					fa, isFA := inner.X.(*ssa.FieldAddr)
+					if !isFA || fieldName(fa.X.Type(), fa.Field) != "ID" {
+						continue
+					}
+					n++
+					guarded := false
+					ik := valKey(inner)
+					for _, cd := range edgeConds(gb) {
+						nc := normCond(cd.V, cd.Pol)
+						if bo, isB := nc.V.(*ssa.BinOp); isB && isNilConst(bo.Y) && valKey(bo.X) == ik && (bo.Op == token.NEQ) == nc.Pol {
+							guarded = true
+						}
+					}
+					r.Check("C16.8", fmt.Sprintf("C16.8:deferred-deref-guarded#%d", n), u.Pos(), guarded, "", "the pull's deferred clean-up dereferences params.ID without a nil test: it runs on every exit, also when the subscription lookup failed before the id was bound — a Pull on an unknown subscription panics instead of answering NotFound")
+				}
+			}
+		}
+	}
+	r.Floor("C16.8", n, 1)
+}
+
+// C17.3 (reader table): the interval pattern accepts what PostgreSQL prints — singular and plural unit words.
+// Decided on the pattern CONSTANT (compiled here, matched against a fixed table of renderings): nothing of /repo runs.
+func ruleC17_3pattern(c *Ctx, r *Rep) {
+	sp := c.SSAPkg[modPath+"/internal/sqltypes"]
+	if sp == nil {
+		r.Fail("C17.3", "C17.3:interval-pattern", token.NoPos, "package internal/sqltypes not loaded")
+		return
+	}
+	ini := sp.Func("init")
+	pat := ""
+	var pos token.Pos
+	if ini != nil {
+		for _, b := range ini.Blocks {
+			for _, in := range b.Instrs {
+				call, ok := in.(*ssa.Call)
+				if !ok || call.Call.StaticCallee() == nil || call.Call.StaticCallee().Name() != "MustCompile" || fnPkgPath(call.Call.StaticCallee()) != "regexp" {
+					continue
+				}
+				if s, isS := constString(call.Call.Args[0]); isS {
+					pat, pos = s, call.Pos()
+				}
+			}
+		}
+	}
+	if pat == "" {
+		r.Undecided("C17.3", "C17.3:interval-pattern", token.NoPos, "the interval pattern constant was not found in the package initialiser")
+		return
+	}
+	re, err := regexp.Compile(pat)
+	if err != nil {
+		r.Fail("C17.3", "C17.3:interval-pattern", pos, "the interval pattern does not compile: "+err.Error())
+		return
+	}
+	bad := ""
+	// (forms with a time part, as the pattern has always required one: stored values are Go duration strings, which
+	// PostgreSQL keeps as hours and prints as H:M:S, with day / mon / year words only after interval arithmetic)
+	for _, s := range []string{"1 day 00:00:00", "3 days 04:05:06", "1 mon 00:00:00", "2 mons 00:00:00", "1 year 00:00:00", "2 years 00:00:00", "1 year 1 mon 1 day 01:02:03", "2 years 3 mons 4 days 05:06:07.000008", "00:00:01", "720:00:00"} {
+		if !re.MatchString(s) {
+			bad = s
+		}
+	}
+	r.Check("C17.3", "C17.3:interval-pattern-accepts-postgres-renderings", pos, bad == "", "", "the interval pattern rejects `"+bad+"`, a form PostgreSQL prints: a stored duration with that component cannot be read back")
+}
+
+// C19.2 (encoding): the envelope's data is the payload in STANDARD base64 (the Pub/Sub push format): the encoder is
+// base64.StdEncoding.
+func ruleC19_2base64(c *Ctx, r *Rep) {
+	fn := r.Anchor("C19.2", "(*actions.httpPushStreamConn).Send")
+	if fn == nil {
+		return
+	}
+	n := 0
+	for _, g := range c.opFuncs(fn) {
+		for _, ci := range callsIn(g, true, func(cal *ssa.Function, _ ssa.CallInstruction) bool {
+			return fnPkgPath(cal) == "encoding/base64" && strings.HasPrefix(cal.Name(), "Encode")
+		}) {
+			n++
+			ok := false
+			if len(ci.Common().Args) > 0 {
+				if u, isU := ci.Common().Args[0].(*ssa.UnOp); isU && u.Op == token.MUL {
+					if gl, isG := u.X.(*ssa.Global); isG && gl.Name() == "StdEncoding" {
+						ok = true
+					}
+				}
+			}
+			r.Check("C19.2", fmt.Sprintf("C19.2:payload-standard-base64#%d", n), ci.Pos(), ok, "", "the pushed payload is not encoded with base64.StdEncoding: payloads whose encoding contains + or / arrive in another alphabet and do not decode at the endpoint")
+		}
+	}
+	if n == 0 {
+		r.Undecided("C19.2", "C19.2:payload-standard-base64", fn.Pos(), "the base64 encoding of the payload was not found")
+	}
+}
+
+// C06.7 (shared with C17): the attempt limit stored by UpdateSubscription is the request's value when that is
+// non-zero and the default otherwise — not the other way round.
+func ruleC06_7(c *Ctx, r *Rep) {
+	n := 0
+	keys := c.stmtKeys()
+	for _, s := range c.EntShape().Stmts {
+		if s.Table != "subscriptions" || s.Kind != "update" || c.testSupport(s.Fn) || !strings.Contains(c.Owner(s), "UpdateSubscription") {
+			continue
+		}
+		for _, m := range s.Mut("max_delivery_attempts", "set") {
+			if m.Arg == nil {
+				continue
+			}
+			n++
+			fromReq := sources(m.Arg)["field:MaxDeliveryAttempts"]
+			_, isConst := resolve(m.Arg).(*ssa.Const)
+			nonZero, zero := false, false
+			for _, cd := range m.Conds {
+				nc := normCond(cd.V, cd.Pol)
+				bo, isB := nc.V.(*ssa.BinOp)
+				if !isB || !sources(bo.X)["field:MaxDeliveryAttempts"] {
+					continue
+				}
+				if z, isZ := constInt(bo.Y); !isZ || z != 0 {
+					continue
+				}
+				switch {
+				case (bo.Op == token.NEQ || bo.Op == token.GTR) && nc.Pol, bo.Op == token.EQL && !nc.Pol:
+					nonZero = true
+				case bo.Op == token.EQL && nc.Pol, (bo.Op == token.NEQ || bo.Op == token.GTR) && !nc.Pol:
+					zero = true
+				}
+			}
+			ok := fromReq && nonZero && !zero || isConst && zero && !nonZero
+			r.Check("C06.7", fmt.Sprintf("C06.7:attempt-limit-from-request-or-default#%d:%s", n, keys[s]), m.Pos, ok, "", "the attempt limit stored by an update is not `the request's value if non-zero, else the default`: an explicit N is replaced by the default and an unspecified one stored as 0 (dead-lettering off)")
+		}
+	}
+	r.Floor("C06.7", n, 2)
+}
+
+// ---------------------------------------------------------------------------
+// C08.9 (shared with C07): two facts about the grammar the struct tags spell out.
+//  (a) The three leaf forms name their attribute the same way: the capture of `Name` in HasAttribute,
+//      HasAttributeValue and HasAttributePredicate accepts the same token kinds (a quoted name is valid in
+//      `attributes:"k"`, `attributes."k" = "v"` and `hasPrefix(attributes."k", "p")` alike).
+//  (b) AND and OR are not mixed at one level: the group holding the two chains of Condition is optional (`?`), not
+//      repeated — with `*` or `+`, `a AND b OR c` is a sentence, and evaluator and printer drop its OR part.
+func ruleC08_9(c *Ctx, r *Rep) {
+	gts := grammarTypes(c)
+	kinds := map[string]string{}
+	for _, gt := range gts {
+		for _, f := range gt.Fields {
+			if f.Name != "Name" || !f.Captured {
+				continue
+			}
+			// the capture after '@': @Ident, @String, @(Ident|String)
+			i := strings.Index(f.Tag, "@")
+			cap := f.Tag[i+1:]
+			if strings.HasPrefix(cap, "(") {
+				if j := strings.Index(cap, ")"); j > 0 {
+					cap = cap[1:j]
+				}
+			} else {
+				cap = strings.FieldsFunc(cap, func(r rune) bool { return !(r == '_' || r >= 'a' && r <= 'z' || r >= 'A' && r <= 'Z') })[0]
+			}
+			parts := strings.Split(strings.ReplaceAll(cap, " ", ""), "|")
+			sort.Strings(parts)
+			kinds[gt.Name] = strings.Join(parts, "|")
+		}
+	}
+	var names []string
+	for k := range kinds {
+		names = append(names, k)
+	}
+	sort.Strings(names)
+	same := len(names) >= 3
+	for _, n := range names {
+		if kinds[n] != kinds[names[0]] {
+			same = false
+		}
+	}
+	desc := ""
+	for _, n := range names {
+		desc += n + ":" + kinds[n] + " "
+	}
+	r.Check("C08.9", "C08.9:leaf-names-agree", token.NoPos, same, strings.TrimSpace(desc), "the leaf forms of the grammar do not accept the same kinds of attribute name ("+strings.TrimSpace(desc)+"): a quoted name valid in one form is a syntax error in another — a valid filter is rejected at create, or a stored one stops parsing at delivery time and the subscription silently receives nothing")
+	// (b)
+	for _, gt := range gts {
+		if gt.Name != "Condition" {
+			continue
+		}
+		all := ""
+		for _, f := range gt.Fields {
+			all += " " + f.Tag
+		}
+		all = strings.Join(strings.Fields(all), "")
+		// the text after the last chain: the closing of the group and its quantifier
+		j := strings.LastIndex(all, ")")
+		quant := ""
+		if j >= 0 {
+			quant = all[j+1:]
+		}
+		ok := j >= 0 && quant == "?" && strings.Contains(all, `("AND"@@)+`) && strings.Contains(all, `|("OR"@@)+`)
+		r.Check("C08.9", "C08.9:and-or-not-mixed", token.NoPos, ok, "@@ ( (\"AND\" @@)+ | (\"OR\" @@)+ )?", "the Condition grammar is not `term ( (AND term)+ | (OR term)+ )?` (found `"+all+"`): with a repeated group, AND and OR can be mixed at one level — such filters are accepted and stored, and evaluation and printing ignore part of them")
 	}
 }
